@@ -223,6 +223,15 @@ def _record(args):
                     for row in res:
                         put(drv.ev_rec(par, row["S"], "ok", row["kr"], ev="Row"), {"par": par, "sw": sw, "sat": row["S"], "got": row["kr"]})
                     put({"ev": "TwoEnd"}, {"par": par, "sw": sw})
+                    # the caller edits that table in place and asks again: the second table is judged like the first
+                    outcome2, res2 = drv.call_two_after_edit(par, sw)
+                    put(drv.ev_two(par, sw, outcome2, len(res2) if outcome2 == "ok" else 0),
+                        {"par": par, "sw": sw, "second_call_after_editing_the_first_table": True, "got": outcome2 if outcome2 == "ok" else res2})
+                    if outcome2 == "ok":
+                        for row in res2:
+                            put(drv.ev_rec(par, row["S"], "ok", row["kr"], ev="Row"),
+                                {"par": par, "sw": sw, "sat": row["S"], "got": row["kr"], "second_call_after_editing_the_first_table": True})
+                        put({"ev": "TwoEnd"}, {"par": par, "sw": sw})
         if mode == 2:
             # one field pushed outside its individual range: every record must be rejected
             for _ in range(3):
@@ -231,6 +240,10 @@ def _record(args):
                 S = drv.sweep_sats(rng, par, "o", 5)[2]
                 outcome, res = drv.call(bad, [S])
                 put(drv.ev_rec(bad, S, outcome, res[0] if outcome == "ok" else None), {"par": bad, "sat": S, "got": res, "pushed": what})
+                # the same inadmissible parameters through the two-phase helper
+                outcome, res = drv.call_two(bad, 0.0)
+                put(drv.ev_two(bad, 0.0, outcome, len(res) if outcome == "ok" else 0),
+                    {"par": bad, "sw": 0.0, "pushed": what, "got": "a table" if outcome == "ok" else res})
     return events, raw
 
 
